@@ -507,6 +507,13 @@ func init() {
 				r.Class("reissued-rx:leg did not finish")
 			}
 		}
+		// the IP client with a coarse clock (own process), kernel transmit timestamps late, every response
+		// duplicated in front of (or behind) the next one, server clock stepped after every exchange
+		if r.Only() == "" || r.Only() == "coarse-clock" {
+			if o := r.RunLeg("plain", "c03coarse", 3*time.Minute, nil); !o.OK {
+				r.Class("coarse-clock:leg did not finish")
+			}
+		}
 		r.Assume("loopback with kernel software timestamps; the scripted server reads the same machine clock, so causality between client and server readings holds without tolerance beyond NTP-timestamp truncation (a few ns)")
 		r.Assume("the client's clock before 2036 (era 0) while server clocks range +-68 years; the mirror case is decided at function level by C04")
 		r.Finish("sequences of 5..16 measurements per client (IP and SCION, interleaved mode off/on, spy filter or none) against two scripted servers: per exchange a server clock offset from a pool (0, +-1 ns, ms, s, hours, years, +-(2^31-2^20) s) or random, clock steps between exchanges, "+
